@@ -11,7 +11,7 @@ COQ_DEPS = ["C03"]
 PROFILES = ["debug"]
 CORR_IMPORT = "From RlibV Require Import C03.Model C03.Corr C16.Model C16.Corr.\nOpen Scope Z_scope."
 AUDIT_IMPORT = ("From Coq Require Import ZArith List Bool.\nImport ListNotations.\n"
-                "From RlibV Require Import C03.Model C03.Corr C16.Model C16.Corr C16.Proofs C16.Properties.\nOpen Scope Z_scope.")
+                "From RlibV Require Import C03.Model C03.Corr C03.Proofs C16.Model C16.Corr C16.Proofs C16.ProofsStrict C16.ProofsHist C16.Properties.\nOpen Scope Z_scope.")
 EXPLAIN = "explain"
 CASE_TYPE = "case"
 AXIOM_ALLOW = []
@@ -26,6 +26,18 @@ THEOREMS = [
      'forall (T : Type) (t1 t2 : @tree T), Heap t1 -> Heap t2 -> inorder t1 = inorder t2 -> NoDup (map fst (inorder t1)) -> t1 = t2'),
     ('c16_heapb_Heap',
      'forall (T : Type) (t : @tree T), heapb t = true <-> Heap t'),
+    ('c16_heap_strict_preserved',
+     'forall (T M V A : Type) (update : T -> option T -> option T -> T) (push : T -> option T -> option T -> T * option T * option T) (size : T -> Z) (modify : M -> T -> T) (elem : T -> V) (agg : T -> A) (ps : list Z) (ops : list (@op T M V)), Forall HeapS (run_final update push size modify elem agg ps ops)'),
+    ('c16_canonical_ties',
+     'forall (T : Type) (t1 t2 : @tree T), HeapS t1 -> HeapS t2 -> inorder t1 = inorder t2 -> t1 = t2'),
+    ('c16_cartesian',
+     'forall (T : Type) (t : @tree T), HeapS t -> t = cart (inorder t)'),
+    ('c16_heap_strict_heap',
+     'forall (T : Type) (t : @tree T), HeapS t -> Heap t'),
+    ('c16_history_priorities',
+     'forall (T M A : Type) (update : T -> option T -> option T -> T) (push : T -> option T -> option T -> T * option T * option T) (size : T -> Z) (modify : M -> T -> T) (elem : T -> Z) (agg : T -> A) (act : M -> Z -> Z) (aggf : list Z -> A) (Pending : T -> list M -> Prop), lawful update push size modify elem agg act aggf Pending -> forall (mk : Z -> T) (md : amod -> M) (actc : amod -> Z -> Z), (forall v : Z, Fresh size elem agg aggf Pending (mk v)) -> (forall v : Z, elem (mk v) = v) -> (forall (m : amod) (e : Z), act (md m) e = actc m e) -> forall (ps : list Z) (ops : list cop) (want : list (list pv)), prun actc [] ps ops = Some want -> Forall2 (fun t pxs => HeapS t /\\ Rep size elem agg act aggf Pending t (map snd pxs) /\\ prios t = map fst pxs) (run_final update push size modify elem agg ps (map (conv mk md) ops)) want'),
+    ('c16_model_check_spec_check',
+     'forall c : case, model_check c = true -> spec_check c = true'),
     ('c16_height_partial',
      'forall k : Z, 0 <= k <= 14 -> let n := 2 ^ k in (height (fam step_append n) <= 5 * Z.log2 (n + 1) + 20 /\\ Heap (fam step_append n) /\\ tsize isize (fam step_append n) = n) /\\ (height (fam step_front n) <= 5 * Z.log2 (n + 1) + 20 /\\ Heap (fam step_front n) /\\ tsize isize (fam step_front n) = n) /\\ (height (fam step_rotate n) <= 5 * Z.log2 (n + 1) + 20 /\\ Heap (fam step_rotate n) /\\ tsize isize (fam step_rotate n) = n)'),
 ]
@@ -45,7 +57,7 @@ shrink = c03.shrink
 
 
 def generate(rng, tier):
-    cases = []
+    cases = c03.exhaustive_small(4 if tier == "quick" else 5)
     n = 1100 if tier == "quick" else 25000
     modes = ["random", "random", "tiny", "tiny", "equal", "inc", "dec", "native", "native", "native"]
     for t in range(n):
@@ -153,13 +165,18 @@ def extra(ctx, known):
 
 
 MANIFEST = {
-    "text": "Coq theorems (no axioms) on the treap model of C03: heap order of priorities along every edge is preserved by every "
-            "operation of every history for every priority stream; priorities are only moved; heap-ordered trees with the same "
-            "in-order (priority, element) list and distinct priorities are equal (canonical Cartesian shape). Height: PARTIAL — "
-            "finite computations for named adversarial families with the modelled generator, plus an implementation-level search "
-            "up to 10^6 nodes. Tied to the code on every run through the public node fields.",
-    "level_note": "Partial: the height bound 5*log2(n+1)+20 is probabilistic and is not (cannot be) a universal theorem; "
-                  "c16_height_partial evaluates the named families for n = 2^k, k <= 14 inside Coq. Trusted: Coq kernel + "
-                  "vm_compute; Rust executor; Python printer; sampled correspondence.",
+    "text": "Coq theorems (no axioms) on the treap model of C03: c16_heap_preserved / c16_heap_strict_preserved (min-heap order on every "
+            "edge - in the exact form of the code: <= towards the left child, < towards the right child, ties go right - after every "
+            "history, for every priority stream and ANY item functions); c16_priorities_only_moved (per operation) and "
+            "c16_history_priorities (history level: priorities are created once, never changed, and stay attached in order to their "
+            "elements); c16_canonical (distinct priorities), c16_canonical_ties and c16_cartesian (no distinctness needed: the tree IS "
+            "the Cartesian tree of its in-order list, independent of the history); c16_model_check_spec_check. Height: PARTIAL "
+            "(c16_height_partial) - finite computations inside Coq for the named adversarial families (sorted appends, front inserts, "
+            "insert + split-and-swap) with the modelled generator for n = 2^k, k <= 14, plus an implementation-level search up to 10^6 "
+            "nodes on every run. Tied to the code on every run through the public node fields (full shape, priorities, items).",
+    "level_note": "Partial: the bound height <= 5*log2(n+1)+20 is a probabilistic statement about the generator and cannot be a universal "
+                  "theorem; what is proved is the finite family evaluation. Trusted: Coq kernel + vm_compute; Rust executor; Python "
+                  "printer (incl. its prediction of the thread-local LCG draws, cross-checked against the Coq model of the generator in "
+                  "every native case); sampled correspondence.",
     "technique": "Coq proof over Gallina model + vm_compute correspondence batches + implementation-level search",
 }
